@@ -299,3 +299,93 @@ func auditRelays(t *chainlab.Tree, o *p2plab.Byz, rng *rand.Rand) (fs []p2plab.F
 	}
 	return
 }
+
+// ---- three-valued liveness verdicts --------------------------------------------
+
+// A waiter decides what an expired liveness deadline means. "quiescent": for a
+// whole idle window (wall clock AND loop iterations of the waiting goroutine,
+// which is starved along with everything else on a saturated machine) nothing
+// sync-related happened and no manager call is in flight: nothing could still
+// finish the job. "repeating": things keep happening, but for a whole window
+// there was no progress (no tip change, no block a node had not been handed
+// before) across at least 20 activity events: the same rounds are repeated.
+// Otherwise the wait is extended up to four times the deadline; "slow" at that
+// cap is an inconclusive case, never a violation.
+type waiter struct {
+	act      *p2plab.Activity
+	start    time.Time
+	deadline time.Duration
+	window   time.Duration
+	iter     int
+	actIter  int
+	progIter int
+	lastAct  int64
+	lastProg int64
+	verdict  string
+}
+
+const waiterMinIdleIters = 150
+
+func newWaiter(act *p2plab.Activity, deadline time.Duration) *waiter {
+	act.Act()
+	return &waiter{act: act, start: time.Now(), deadline: deadline, window: 12 * time.Second}
+}
+
+// step is called once per polling iteration while the goal is not reached; it
+// returns "" (keep waiting), "quiescent", "repeating" or "slow".
+func (w *waiter) step() string {
+	w.iter++
+	if a := w.act.LastActivity(); a != w.lastAct {
+		w.lastAct, w.actIter = a, w.iter
+	}
+	if p := w.act.LastProgress(); p != w.lastProg {
+		w.lastProg, w.progIter = p, w.iter
+	}
+	el := time.Since(w.start)
+	if el < w.deadline {
+		return ""
+	}
+	now := time.Now().UnixNano()
+	switch {
+	case w.act.InFlight() == 0 && now-w.lastAct >= int64(w.window) && w.iter-w.actIter >= waiterMinIdleIters:
+		w.verdict = "quiescent"
+	case now-w.lastProg >= int64(w.window) && w.iter-w.progIter >= waiterMinIdleIters && w.act.EventsSinceProgress() >= 20:
+		w.verdict = "repeating"
+	case el >= 4*w.deadline:
+		w.verdict = "slow"
+	}
+	return w.verdict
+}
+
+func (w *waiter) info() map[string]any {
+	now := time.Now()
+	return map[string]any{
+		"verdict":                 w.verdict,
+		"deadline_ms":             w.deadline.Milliseconds(),
+		"waited_ms":               now.Sub(w.start).Milliseconds(),
+		"idle_window_required_ms": w.window.Milliseconds(),
+		"idle_ms":                 (now.UnixNano() - w.act.LastActivity()) / 1e6,
+		"since_progress_ms":       (now.UnixNano() - w.act.LastProgress()) / 1e6,
+		"idle_poll_iterations":    w.iter - w.actIter,
+		"no_progress_iterations":  w.iter - w.progIter,
+		"events_since_progress":   w.act.EventsSinceProgress(),
+		"manager_calls_in_flight": w.act.InFlight(),
+		"last_activity":           time.Unix(0, w.act.LastActivity()).Format(time.RFC3339Nano),
+		"last_progress":           time.Unix(0, w.act.LastProgress()).Format(time.RFC3339Nano),
+	}
+}
+
+// slowCase records a case whose deadline (and the 4x cap) expired while things
+// were still moving.
+func slowCase(r *mon.Run, what string) {
+	r.Count("cases_inconclusive_slow_machine", 1)
+	fmt.Printf("note: inconclusive (activity still ongoing at 4x the deadline): %s\n", what)
+}
+
+// slowVerdict makes the whole run inconclusive if more than a small fraction of
+// the cases ended without a verdict because the machine was too slow.
+func slowVerdict(r *mon.Run, cases int) {
+	if n := r.Counter("cases_inconclusive_slow_machine"); n > int64(2+cases/20) {
+		r.Inconclusive(fmt.Sprintf("%d of %d cases were still making progress at 4x their liveness deadline (machine too slow)", n, cases))
+	}
+}
